@@ -553,6 +553,30 @@ def fam_nfa2dfa(rec, rng):
             i = rng.randrange(len(out))
             out[i] = (out[i][0], out[i][1], rng.choice(A0[0]))
         answers.append(('subset_spelled_twice/' + kind, fa.make(list(A0[0]) + [q2], A0[1], T2 + out, A0[3] if rng.random() < 0.7 else (q2 if A0[3] == q else A0[3]), F2)))
+    # extra subset states that the construction does NOT reach from the initial subset (with their correct moves, closed under
+    # successors): marked correctly, or with the acceptance of one of them flipped
+    import itertools as _it
+    have = {parse_label(q) for q in A0[0]}
+    cands = [frozenset(c) for r_ in (1, 2) for c in _it.combinations(sorted(R[0]), r_) if frozenset(c) not in have]
+    rng.shuffle(cands)
+    for S0 in cands[:2]:
+        extra, todo = set(), [S0]
+        while todo and len(extra) < 6:
+            S = todo.pop()
+            if S in have or S in extra:
+                continue
+            extra.add(S)
+            for a in R[1]:
+                todo.append(frozenset(expected_target(S, a)))
+        if todo:
+            continue
+        lbl = lambda S: '{' + ','.join(sorted(S)) + '}'
+        Tx = [(lbl(S), a, lbl(frozenset(expected_target(S, a)))) for S in extra for a in R[1]]
+        Fx = [lbl(S) for S in extra if S & Fn]
+        answers.append(('extra_unreachable_subsets_correct', fa.make(list(A0[0]) + [lbl(S) for S in extra], A0[1], list(A0[2]) + Tx, A0[3], list(A0[4]) + Fx)))
+        flip = lbl(rng.choice(sorted(extra, key=sorted)))
+        Fx2 = [x for x in Fx if x != flip] if flip in Fx else Fx + [flip]
+        answers.append(('extra_unreachable_subsets_wrong_final_marking', fa.make(list(A0[0]) + [lbl(S) for S in extra], A0[1], list(A0[2]) + Tx, A0[3], list(A0[4]) + Fx2)))
     for (nm, A) in answers:
         if not fa.well_formed(A) or not all(re.fullmatch(r'\{[\w,]*\}', q) for q in A[0]) or any(a is None for (_, a, _) in A[2]):
             continue
